@@ -79,13 +79,25 @@ def _free_literal(expr: ast.AST, truth: bool, registry: Set[str]) -> Optional[st
     return None
 
 
+def _through_locals(cfg: CFG, expr: ast.AST, truth: bool, anchor: ast.AST, keep: Set[str] = frozenset()):
+    """ the literals of a fact after reading named parts through (`is_unused = x not in ids; if is_unused and ...`) """
+    out = [(expr, truth)]
+    if isinstance(expr, ast.Name):
+        at = expr if hasattr(expr, "_parent") else anchor
+        full = inline_reaching(cfg, at, expr, keep=keep, max_depth=0)
+        if not isinstance(full, ast.Name):
+            out += literals(full, truth)
+    return out
+
+
 def _free_at(cfg: CFG, node: ast.AST, registry: Set[str]) -> Set[str]:
     """ expressions proven absent from the registry on every path to node (stale facts dropped) """
     out = set()
-    for expr, truth in path_facts(cfg, node, fresh_only=True):
-        text = _free_literal(expr, truth, registry)
-        if text is not None:
-            out.add(text)
+    for fact, pol in path_facts(cfg, node, fresh_only=True):
+        for expr, truth in _through_locals(cfg, fact, pol, node):
+            text = _free_literal(expr, truth, registry)
+            if text is not None:
+                out.add(text)
     return out
 
 
@@ -96,9 +108,10 @@ def _membership_tests(cfg: CFG, func: ast.AST, subject_text: str, registry: Set[
         if node.kind != "test" or node.ast is None or not hasattr(node.ast, "test"):
             continue
         for label, truth in (("T", True), ("F", False)):
-            for expr, pol in literals(node.ast.test, truth):
-                if _free_literal(expr, pol, registry) == subject_text:
-                    edges.append((node.id, label))
+            for fact, fpol in literals(node.ast.test, truth):
+                for expr, pol in _through_locals(cfg, fact, fpol, node.ast):
+                    if _free_literal(expr, pol, registry) == subject_text and (node.id, label) not in edges:
+                        edges.append((node.id, label))
     return edges
 
 
@@ -280,7 +293,7 @@ def _strip_of(expr: ast.AST, charset: str) -> Optional[str]:
     return None
 
 
-def _replaces_illegal(func: ast.AST) -> bool:
+def _replaces_illegal(func: ast.AST, repo=None, rel: str = "") -> bool:
     """ every character of a punctuation set is replaced by an underscore in the returned string: a loop/chain of
         `x = x.replace(char, "_")` over the characters of the set, or "".join("_" if c in set else c for c in x) """
     charsets = {n.targets[0].id for n in walk_local(func) if isinstance(n, ast.Assign) and isinstance(n.targets[0], ast.Name)
@@ -294,8 +307,17 @@ def _replaces_illegal(func: ast.AST) -> bool:
             and not (isinstance(r.value, ast.Constant) and r.value.value is None)]
     if not rets:
         return False
+    checks = []
     for ret in rets:
-        value = inline_reaching(cfg, ret, ret.value, keep=charsets)
+        if isinstance(ret.value, ast.Name):
+            defs = [cfg.nodes[d].ast for d in cfg.reaching_defs(ret.value.id, cfg.n(ret)) if d >= 0]
+            joined = [n.value for n in defs if isinstance(n, ast.Assign) and isinstance(n.value, ast.Call) and last_attr(n.value) == "join"]
+            if joined and len(joined) == len([n for n in defs if not (isinstance(n, ast.Assign) and call_name(n.value) == "str"
+                                                                        if isinstance(getattr(n, "value", None), ast.Call) else False)]):
+                checks += [(ret, inline_reaching(cfg, ret, v, keep=charsets), False) for v in joined]
+                continue
+        checks.append((ret, inline_reaching(cfg, ret, ret.value, keep=charsets), True))
+    for ret, value, allow_loop in checks:
         fine = False
         if isinstance(value, ast.Call) and last_attr(value) == "join" and len(value.args) == 1 \
                 and isinstance(value.args[0], (ast.GeneratorExp, ast.ListComp)) and len(value.args[0].generators) == 1 \
@@ -306,7 +328,39 @@ def _replaces_illegal(func: ast.AST) -> bool:
             if cmp_ is not None and txt(cmp_[0]) == var and txt(cmp_[2]) in charsets:
                 under, other = (elt.body, elt.orelse) if cmp_[1] == "in" else (elt.orelse, elt.body)
                 fine = cmp_[1] in ("in", "not in") and isinstance(under, ast.Constant) and under.value == "_" and txt(other) == var
-        elif isinstance(ret.value, ast.Name):
+        elif isinstance(value, ast.Call) and last_attr(value) == "join" and len(value.args) == 1 \
+                and isinstance(value.args[0], (ast.GeneratorExp, ast.ListComp)) and len(value.args[0].generators) == 1 \
+                and not value.args[0].generators[0].ifs and isinstance(value.args[0].elt, ast.Call) \
+                and isinstance(value.args[0].elt.func, ast.Name) and repo is not None:
+            # per-character helper: h(char, charset) returning "_" for a character of the set and the character otherwise
+            call = value.args[0].elt
+            var = txt(value.args[0].generators[0].target)
+            try:
+                helper = repo.func(rel, call.func.id)
+            except AnalysisError:
+                helper = None
+            if helper is not None and len(helper.args.args) == len(call.args) == 2 and txt(call.args[0]) == var \
+                    and txt(call.args[1]) in charsets:
+                c_param, s_param = (a.arg for a in helper.args.args)
+                hcfg = CFG(helper)
+                hrets = [r for r in walk_local(helper) if isinstance(r, ast.Return) and r.value is not None]
+                good = bool(hrets)
+                for r in hrets:
+                    member = [t for e, t in path_facts(hcfg, r) if txt(e) == f"{c_param} in {s_param}"] + \
+                        [not t for e, t in path_facts(hcfg, r) if txt(e) == f"{c_param} not in {s_param}"]
+                    if isinstance(r.value, ast.IfExp):
+                        test = effective_compare(r.value.test)
+                        ok_if = test is not None and txt(test[0]) == c_param and txt(test[2]) == s_param and test[1] in ("in", "not in")
+                        under, other = (r.value.body, r.value.orelse) if ok_if and test[1] == "in" else (r.value.orelse, r.value.body)
+                        good = good and ok_if and isinstance(under, ast.Constant) and under.value == "_" and txt(other) == c_param
+                    elif member == [True]:
+                        good = good and isinstance(r.value, ast.Constant) and r.value.value == "_"
+                    elif member == [False]:
+                        good = good and txt(r.value) == c_param
+                    else:
+                        good = False
+                fine = good
+        elif isinstance(ret.value, ast.Name) and allow_loop:
             # replace loop: for char in <something over the set>: name = name.replace(char, "_")
             name = ret.value.id
             for loop in [n for n in walk_local(func) if isinstance(n, ast.For)]:
@@ -436,6 +490,28 @@ def _bounded_expr(cfg: CFG, func: ast.AST, stmt: ast.AST, value: ast.AST, limit:
         if ml is not None:
             if isinstance(ml, ast.Constant) and isinstance(ml.value, int) and 0 < ml.value <= limit:
                 return True, f"generate_unique_id(max_length={ml.value})"
+            if isinstance(ml, ast.Name):
+                # a local set on two arms: the bound on one, 'no limit' only where long names are allowed
+                verdicts = []
+                at_call = next((a for a in _ancestors(call) if isinstance(a, ast.stmt)), stmt)
+                for d in cfg.reaching_defs(ml.id, cfg.n(at_call)):
+                    node = cfg.nodes[d].ast if d >= 0 else None
+                    val = node.value if isinstance(node, (ast.Assign, ast.AnnAssign)) else None
+                    if isinstance(val, ast.IfExp):
+                        ml = val
+                        verdicts = None
+                        break
+                    try:
+                        number = ast.literal_eval(val) if val is not None else None
+                    except (ValueError, TypeError):
+                        number = None
+                    bounded_here = isinstance(number, int) and 0 < number <= limit
+                    long_allowed = node is not None and any(t and "allow_long" in txt(e) for e, t in path_facts(cfg, node))
+                    verdicts.append(bounded_here or long_allowed)
+                if verdicts is not None:
+                    if verdicts and all(verdicts):
+                        return True, f"generate_unique_id(max_length={limit} unless long names are allowed)"
+                    return False, f"{text[:50]}: no max_length <= {limit}"
             if isinstance(ml, ast.IfExp):
                 arms = [ml.body, ml.orelse]
                 bounded_arm = [a for a in arms if isinstance(a, ast.Constant) and isinstance(a.value, int) and 0 < a.value <= limit]
@@ -443,7 +519,10 @@ def _bounded_expr(cfg: CFG, func: ast.AST, stmt: ast.AST, value: ast.AST, limit:
                     return True, f"generate_unique_id(max_length={limit} unless long names are allowed)"
         return False, f"{text[:50]}: no max_length <= {limit}"
     resolved = txt(inline_reaching(cfg, stmt, value))
-    for expr, truth in path_facts(cfg, stmt, fresh_only=True):
+    facts = []
+    for fact, pol in path_facts(cfg, stmt, fresh_only=True):
+        facts += _through_locals(cfg, fact, pol, stmt)
+    for expr, truth in facts:
         cmp_ = effective_compare(expr, truth)
         cmp_ = oriented(cmp_, lambda e: isinstance(e, ast.Call) and call_name(e) == "len" and len(e.args) == 1) if cmp_ else None
         if cmp_ is None or not (isinstance(cmp_[2], ast.Constant) and isinstance(cmp_[2].value, int)):
@@ -585,7 +664,7 @@ def r16_5(ctx: Ctx) -> None:
     ctx.ob("R16.5", REC, cfg.nodes[name_tests[0][0]].ast if name_tests else func, qual, "duplicate name renamed or rejected", ok,
            "a gene whose name is taken is either rejected or renamed with its location checksum before being stored", form="")
     san = ctx.fn(CDS, "_sanitise_id_value")
-    ok = _replaces_illegal(san)
+    ok = _replaces_illegal(san, ctx.repo, CDS)
     ctx.ob("R16.5", CDS, san, "_sanitise_id_value", "gene id sanitised", ok,
            "characters that break external programs are replaced in gene identifiers", form="")
 
